@@ -22,8 +22,41 @@ def worker_init(repo, assertions=False):
     sys.setrecursionlimit(220)
 
 
+def well_formed(par, ch):
+    """Harness safety guard (not a verdict): on a forest whose two views disagree or that has a parent cycle the library's own
+    traversals may not terminate, so a history stops right after the call that produced it (that call is recorded and judged)."""
+    for n, p in par.items():
+        if p != "Nil" and (p not in ch or ch[p].count(n) != 1):
+            return False
+    for p, kids in ch.items():
+        for k in kids:
+            if par.get(k) != p:
+                return False
+    for n in par:
+        seen, cur = set(), n
+        while cur != "Nil":
+            if cur in seen or cur not in par:
+                return False
+            seen.add(cur)
+            cur = par[cur]
+    return True
+
+
 def history(args):
+    """One history (under an overall deadline: a library call that never returns ends it)."""
+    from . import core
+
+    try:
+        return core._deadline(lambda: _history(args), 150)
+    except core.Hang:
+        seed, family = args[0], args[1]
+        return {"ops": [], "queries": [], "resolver": [], "other": [("raised", {"id": "%s-%d" % (family, seed), "kind": "history", "raised": "Hang: a library call did not return"})],
+                "family": family, "seed": seed, "hung": True}
+
+
+def _history(args):
     """One history: returns {"ops": [...], "queries": [...]} (events in the judge formats)."""
+    from . import core
     seed, family, size, steps, asrt = args
     from . import nodes as N
     from . import ops_replay
@@ -74,13 +107,16 @@ def history(args):
             p = plan()
             N.reset(p)
             exc, src = "Nil", 0
-            try:
+            def _mutate():
                 if kind == "sp":
                     objs[n].parent = None if call["v"] == "Nil" else objs[call["v"]]
                 elif kind == "dc":
                     del objs[n].children
                 else:
                     objs[n].children = ops_replay.as_iterable([objs[x] for x in call["xs"]], step)
+
+            try:
+                core._deadline(_mutate, 10)
             except BaseException as e:  # noqa
                 if isinstance(e, (KeyboardInterrupt, SystemExit)):
                     raise
@@ -92,6 +128,8 @@ def history(args):
             ev = dict(call, plan=p, strict=strict, asrt=asrt, prepar=prepar, prech=prech, postpar=postpar, postch=postch,
                       exc=exc, src=src, log=log if exc != "RecursionError" else log[:12], id="%s.%d" % (hid, step))
             ops.append(ev)
+            if not well_formed(postpar, postch):
+                break
         elif r < 0.50 and names is not None:
             # ---- rename a node (changes what paths denote; the resolvers below are long-lived objects)
             # (preferably a node a path was just resolved to: a resolver that remembers results must notice)
@@ -223,12 +261,16 @@ def history(args):
             del recent[:-6]
             saved = N.Ctx.log
             N.Ctx.log = None
+            hung = False
             try:
-                obs = query_replay.perform(query, family, prepar, prech, objs=objs)
+                obs = core._deadline(lambda: query_replay.perform(query, family, prepar, prech, objs=objs), 10)
             except Exception as e:  # noqa
                 obs = {"q": q, "raised": "%s: %s" % (type(e).__name__, str(e)[:200])}
+                hung = isinstance(e, core.Hang)
             N.Ctx.log = saved
             after = N.snapshot()
             queries.append({"id": "%s.%d" % (hid, step), "par": prepar, "ch": prech, "query": query, "obs": obs,
                             "changed": after != (prepar, prech)})
+            if hung:
+                break
     return {"ops": ops, "queries": queries, "resolver": resolver_events, "other": other_events, "family": family, "seed": seed}
